@@ -249,3 +249,34 @@ def compare(res, rule, fn, where, got, want, what="accept path"):
 def load_spec(name):
     with open(os.path.join(build.VERIF, "tables", "spec", name)) as fh:
         return json.load(fh)
+
+
+def ret_table(prog, fn, alias=None, slice_param=None, only_ok=False):
+    """[(sorted atom strings, return-value name)] over all feasible return paths of fn."""
+    from .guards import analysis as _an
+    body = prog.body(fn)
+    an = _an(prog, body)
+    if slice_param is None:
+        slice_param = 1 if body.argc >= 1 and body.locals[1]["ty"].get("k") == "ref" and body.locals[1]["ty"]["t"].get("k") in ("slice", "str") else 99
+    sy = Sym(prog, an, slice_param=slice_param)
+    out = []
+    for rb in body.returns():
+        ps = forward_paths(an, rb)
+        if ps is None:
+            raise RuntimeError("too many paths in %s" % fn)
+        for path in ps:
+            ats = simplify(path_atoms(sy, path))
+            if ats is None:
+                continue
+            sy.set_path(path[1])
+            defs = sy.var_defs(0) or []
+            vals = []
+            for d in defs:
+                p = sy.poly(d)
+                vals.append(str(p) if p is not None else sy.name(d))
+            sy.set_path(None)
+            val = apply_alias("|".join(sorted(vals)), alias)
+            if only_ok and not val.startswith("Ok{"):
+                continue
+            out.append((sorted(apply_alias(atom_str(a), alias) for a in ats), val))
+    return sorted(out)
